@@ -37,7 +37,8 @@ Definition live (c : config) : Prop :=
 
 (* the application holds the ball *)
 Definition app_pending (c : config) : Prop :=
-  (exists x, in_impl (ipc c x) = true) \/ (exists p, ppc c p = PDelivered \/ ppc c p = PDirect).
+  (exists x, in_impl (ipc c x) = true) \/ (exists p, ppc c p = PDelivered \/ ppc c p = PDirect)
+  \/ (exists a k, aq_ph c a = ADrainWait k).
 
 Definition progress (P : params) (c : config) : Prop := lib_enabled P c \/ app_pending c.
 
@@ -58,10 +59,11 @@ Section NoStuck.
     - right. left. exists x. rewrite Ei. reflexivity.
     - right. left. exists x. rewrite Ei. reflexivity.
     - left. exists (TImpl x). split; simpl; auto. unfold step_impl. rewrite Ei. discriminate.
-    - left. exists (TImpl x). split; simpl; auto. unfold step_impl. rewrite Ei.
-      pose proof (a_q5 _ _ A x) as Q. rewrite Ei in Q.
-      destruct (aq_ph c x); simpl in Q; try discriminate.
-      destruct (nth_error (aq_q c x) k); [destruct (ierr c x)|]; discriminate.
+    - pose proof (a_q5 _ _ A x) as Q. rewrite Ei in Q.
+      destruct (aq_ph c x) eqn:Eph; simpl in Q; try discriminate.
+      + left. exists (TImpl x). split; simpl; auto. unfold step_impl. rewrite Ei, Eph.
+        destruct (nth_error (aq_q c x) k); [destruct (ierr c x)|]; discriminate.
+      + right. right. right. eauto.
     - left. exists (TImpl x). split; simpl; auto. unfold step_impl. rewrite Ei. discriminate.
     - left. exists (TImpl x). split; simpl; auto. unfold step_impl. rewrite Ei. discriminate.
     - left. exists (TImpl x). split; simpl; auto. unfold step_impl. rewrite Ei. discriminate.
@@ -154,6 +156,7 @@ Section NoStuck.
       + apply (L_root (proot c p)); auto. congruence.
       + left. exists (TPipe p). split; [simpl; congruence|]. simpl. unfold step_pipe. rewrite K, Ep, Eph. discriminate.
       + left. exists (TPipe p). split; [simpl; congruence|]. simpl. unfold step_pipe. rewrite K, Ep, Eph. discriminate.
+      + left. exists (TPipe p). split; [simpl; congruence|]. simpl. unfold step_pipe. rewrite K, Ep, Eph. discriminate.
     - (* PWaitReady *)
       destruct (ready_closed c (proot c p)) eqn:Er.
       + left. exists (TPipe p). split; [simpl; congruence|]. simpl. unfold step_pipe. rewrite K, Ep, Er. discriminate.
@@ -165,14 +168,15 @@ Section NoStuck.
       apply (L_root (proot c p)); auto. intros E.
       pose proof (proj1 (a_q1 _ _ A _ _ _ Hn) Ep) as Q. rewrite E in Q. simpl in Q.
       assert (i < length (aq_q c (proot c p))) by (apply nth_error_Some; rewrite Hn; discriminate). lia.
-    - right. right. exists p. auto.
+    - right. right. left. exists p. auto.
     - (* PEmbRet *)
       destruct (aq_ph c (proot c p)) eqn:Eph.
       + apply (L_root (proot c p)); auto. congruence.
       + apply (L_root (proot c p)); auto. congruence.
       + left. exists (TEmb p). split; [simpl; auto|]. simpl. unfold step_emb. rewrite Ep, Eph.
         pose proof (d_tret _ _ D p Ep). destruct (tret c p); try congruence; discriminate.
-    - right. right. exists p. auto.
+      + apply (L_root (proot c p)); auto. congruence.
+    - right. right. left. exists p. auto.
   Qed.
 
   Lemma no_stuck_inv : live c -> progress P c.
@@ -193,9 +197,10 @@ Qed.
 
 (* when the application holds the ball it can move: implementations can return, targets can return *)
 Lemma app_can_move_lemma : forall P c, app_pending c ->
-  exists t, (exists x e, t = TRet x e \/ t = TTargetRet x e) /\ step P c t <> None.
+  exists t, (exists x e, t = TRet x e \/ t = TTargetRet x e \/ t = TDrainAck x) /\ step P c t <> None.
 Proof.
-  intros P c [(x & H)|(p & H)].
+  intros P c [(x & H)|[(p & H)|(a & k & H)]].
   - exists (TRet x false). split; [eauto|]. simpl. unfold step_ret. destruct (ipc c x); try discriminate; discriminate.
-  - exists (TTargetRet p false). split; [eauto|]. simpl. unfold step_target_ret. destruct H as [-> | ->]; discriminate.
+  - exists (TTargetRet p false). split; [eauto 6|]. simpl. unfold step_target_ret. destruct H as [-> | ->]; discriminate.
+  - exists (TDrainAck a). split; [exists a, false; auto|]. simpl. unfold step_drain_ack. rewrite H. discriminate.
 Qed.
